@@ -80,7 +80,7 @@ def render_expr(t):
 
 FORM_TMPL = {
     "imp": "{mn}", "imm": "{mn} #{e}", "dir": "{mn} {e}", "dirx": "{mn} {e},x", "diry": "{mn} {e},y",
-    "indx": "{mn} ({e},x)", "indy": "{mn} ({e}),y",
+    "indx": "{mn} ({e},x)", "indy": "{mn} ({e}),y", "ind": "{mn} ({e})",
 }
 
 
@@ -305,9 +305,11 @@ class Gen:
     and ram()/ram16(), flags, the pc, messages, unevaluable assertions, several tests per file, two banks that
     overlap in the address space."""
 
-    def __init__(self, rnd):
+    def __init__(self, rnd, long_runs=1):
         self.r = rnd
         self.n = 0
+        self.long_runs = long_runs      # 0: no long loops, 1: up to ~2000 instructions, 2: up to ~15000
+        self.vectors = []               # data words (jmp (vec) targets) to place behind the brk of the test being built
 
     def fresh(self, p):
         self.n += 1
@@ -451,11 +453,116 @@ class Gen:
         kn.clear()
         kn["consts"] = consts
 
+    # --- round 4: status register on the stack, rti, indirect jumps, decimal flag, long runs -------------
+    def flags_known(self, out, kn, d=False):
+        """Emit flag instructions + a load so that the generator knows all six flags; returns the status byte (bits 4,5 = 0)."""
+        r = self.r
+        i, c = r.random() < 0.5, r.random() < 0.5
+        v = r.choice([0, 1, 127, 128, 255, r.randrange(256)])
+        out += [insn("sei" if i else "cli"), insn("sed" if d else "cld"), insn("clv"), insn("sec" if c else "clc"),
+                insn("lda", "imm", self.lit(v))]
+        kn["a"], kn["z"], kn["n"], kn["c"] = v, v == 0, v >= 128, c
+        return (128 if v >= 128 else 0) | (8 if d else 0) | (4 if i else 0) | (2 if v == 0 else 0) | (1 if c else 0)
+
+    def flag_asserts(self, b, want_true=True):
+        names = [("carry", 1), ("zero", 2), ("interrupt_disable", 4), ("overflow", 64), ("negative", 128)]
+        nm, m = self.r.choice(names)
+        f = ident("cpu.flags." + nm)
+        return assert_(f if bool(b & m) == want_true else fac(f, nt=True), self.fresh("m") if self.r.random() < 0.5 else None)
+
+    def round4(self, kn, keep):
+        r = self.r
+        out = []
+        c = r.random()
+        msg = lambda: self.fresh("m") if r.random() < 0.5 else None
+        if c < 0.22:
+            # php / pla: the pushed copy of the status register has bits 4 and 5 set
+            p = self.flags_known(out, kn) | 0x30
+            out += [insn("php"), insn("pla")]
+            ok = r.random() < 0.8
+            out.append(assert_(binop("==", ident("cpu.a"), self.lit(p if ok else p ^ r.choice([0x10, 0x20, 0x30]))), msg()))
+            kn["a"], kn["z"], kn["n"] = p, False, p >= 128
+        elif c < 0.44:
+            # lda #b / pha / plp: the six flags come from the byte, bits 4 and 5 of it are ignored
+            b = r.randrange(256) & ~8
+            out += [insn("lda", "imm", self.lit(b)), insn("pha"), insn("plp")]
+            out.append(self.flag_asserts(b, r.random() < 0.85))
+            if r.random() < 0.6:
+                out += [insn("php"), insn("pla"),
+                        assert_(binop("==", ident("cpu.a"), self.lit((b | 0x30) if r.random() < 0.85 else b)), msg())]
+                kn["a"] = b | 0x30
+            else:
+                kn["a"] = b
+            kn["z"], kn["n"], kn["c"] = bool(b & 2), bool(b & 128), bool(b & 1)
+            if kn["a"] == (b | 0x30):
+                kn["z"], kn["n"] = False, bool(b & 128)
+        elif c < 0.60:
+            # rti: flags and pc from the stack, no +1 on the pc (unlike rts)
+            tgt = self.fresh("rt")
+            b = r.randrange(256) & ~8
+            out += [insn("lda", "imm", ident(tgt, ">")), insn("pha"), insn("lda", "imm", ident(tgt, "<")), insn("pha"),
+                    insn("lda", "imm", self.lit(b)), insn("pha"), insn("rti"),
+                    assert_(binop("==", ident("cpu.a"), num(0x100, "hex")), "not reached"),     # skipped by the rti
+                    insn("nop"), label(tgt)]
+            out.append(self.flag_asserts(b, r.random() < 0.85))
+            # (round-4 blocks only occur at the top level of a test body, where the stack is balanced: sp = $FD)
+            out.append(assert_(binop("==" if r.random() < 0.85 else "!=", ident("cpu.sp"), self.lit(0xfd)), msg()))
+            kn["a"], kn["z"], kn["n"], kn["c"] = b, bool(b & 2), bool(b & 128), bool(b & 1)
+        elif c < 0.82:
+            # jmp (vector): through a data word, or through a vector built in RAM; a vector at $xxFF takes its
+            # high byte from $xx00 (the other candidate, $xxFF+1, gets a decoy)
+            tgt = self.fresh("jt")
+            skipped = [assert_(binop("==", ident("cpu.a"), num(0x100, "hex")), "not reached"), insn("nop")]
+            if r.random() < 0.35:
+                vec = self.fresh("vec")
+                self.vectors.append((vec, tgt))
+                out += [insn("jmp", "ind", ident(vec))] + skipped + [label(tgt)]
+            else:
+                v = r.choice([0x20, 0x00ff, 0x02ff, 0x02ff, 0x0280])
+                hi_at = (v & 0xff00) | ((v + 1) & 0xff)
+                out += [insn("lda", "imm", ident(tgt, "<")), insn("sta", "dir", self.lit(v)),
+                        insn("lda", "imm", ident(tgt, ">")), insn("sta", "dir", self.lit(hi_at))]
+                if hi_at != v + 1:
+                    out += [insn("lda", "imm", num(0)), insn("sta", "dir", self.lit(v + 1))]
+                out += [insn("jmp", "ind", self.lit(v))] + skipped + [label(tgt)]
+                kn["a"] = kn["z"] = kn["n"] = None
+                kn.get("mem", {}).pop(v, None)
+            out.append(assert_(binop("==", pc(), ident(tgt)) if r.random() < 0.85 else binop("!=", pc(), ident(tgt)), msg()))
+        elif c < 0.88:
+            # decimal flag set during an add/subtract: the property is silent from there (tier 2 mirrors the emulator)
+            self.flags_known(out, kn, d=True)
+            out += [insn(r.choice(["adc", "sbc"]), "imm", self.lit(r.choice([0x01, 0x09, 0x15, 0x99]))), insn("cld")]
+            out.append(assert_(binop("<", ident("cpu.a"), num(256)), msg()))
+            kn["a"] = kn["z"] = kn["n"] = kn["c"] = None
+        elif self.long_runs and "x" not in keep and "y" not in keep:
+            # delay loops: hundreds to thousands of instructions before the next assertion
+            big = self.long_runs > 1 and r.random() < 0.3
+            k = r.choice([0, 255, 200, 120, 64]) if (big or r.random() < 0.3) else r.randrange(20, 90)
+            li = self.fresh("li")
+            inner = [insn("ldy", "imm", self.lit(k)), label(li), insn("dey"), insn("bne", "dir", ident(li))]
+            if r.random() < 0.6:
+                j = r.randrange(2, 28 if big else 5)
+                lo = self.fresh("lo")
+                body = [label(lo)] + inner
+                if r.random() < 0.6:
+                    body.append(assert_(binop("==", ident("cpu.y"), num(0)) if r.random() < 0.9 else binop("==", ident("cpu.x"), num(j)), msg()))
+                out += [insn("ldx", "imm", self.lit(j))] + body + [insn("dex"), insn("bne", "dir", ident(lo))]
+                kn["x"] = 0
+            else:
+                out += inner
+            kn["y"], kn["z"], kn["n"] = 0, True, False
+        else:
+            out += self.simple(kn, keep)
+        return out
+
     def block(self, kn, depth, subs, keep=()):
         """A sequence of statements; kn is updated to what is known afterwards."""
         r = self.r
         out = []
         for _ in range(r.randrange(1, 5)):
+            if depth == 0 and "a" not in keep and r.random() < 0.13:
+                out += self.round4(kn, keep)
+                continue
             c = r.random()
             if c < 0.06 and "a" not in keep:
                 # a 16-bit value stored low byte first, read back with ram16() (and the bytes with ram())
@@ -592,8 +699,11 @@ class Gen:
             inside, outside = [], []
             for nm, sb, is_out in extra:
                 (outside if is_out else inside).append(sb)
-            tail = [insn("brk")] if (r.random() < 0.9 or inside) else []
+            tail = [insn("brk")] if (r.random() < 0.9 or inside or self.vectors) else []
             tb = body + tail
+            for vec, tgt in self.vectors:           # vectors of jmp (vec), behind the brk
+                tb += [label(vec), data(2, [ident(tgt)])]
+            self.vectors = []
             for sb in inside:
                 tb += sb if isinstance(sb, list) else [sb]
             t = test("t%d" % (ti + 1), tb)
